@@ -28,7 +28,7 @@ RULE = (
 )
 ASSUMPTIONS = ["Pandas executor for results; to_sql text compared verbatim per dialect"]
 
-N = {"quick": 1200, "thorough": 8000}
+N = {"quick": 1200, "thorough": 16000}
 NB = {"quick": 16, "thorough": 64}
 MUT_PER_CASE = 6
 
